@@ -134,7 +134,9 @@ OrderOps == {"swap", "reorder", "sift", "pairs", "add_var", "declare", "undeclar
 (* must-accept: a call inside its contract that the specification enables *)
 RaisedClauses(e, s, t) ==
   LET a == e.a IN
-  IF e.op = "shutdown" THEN {"auto.shutdown"} ELSE
+  IF e.op = "shutdown" THEN {"auto.shutdown"}
+  ELSE IF e.op = "abort" THEN {"harness.abort"}     \* the driver could not continue on this code
+  ELSE
   (IF RaisedC(s, t) THEN {} ELSE {"exc.order"})
   \cup (IF e.exc = "_NeedsReordering" THEN {"dyn.signal_escaped"} ELSE {})
   \cup (CASE e.op = "add_var" -> IF AddVarRefusedOK(s, a.name, a.level) THEN {} ELSE {"decl.spurious_refusal"}
